@@ -1,6 +1,5 @@
 From Coq Require Import Extraction ExtrOcamlBasic.
-From LCP Require Import Base.ExtractBase Base.CheckedMem Gen.Repo_parsenum
-  Util.ParsenumSpec Util.Strto Util.Parsenum Util.Humansize Util.HumansizeSpec.
+From LCP Require Import Base.ExtractBase Base.CheckedMem Gen.Repo_parsenum Util.ParsenumSpec Util.Strto Util.Parsenum Util.Humansize Util.HumansizeSpec.
 Extraction Language OCaml.
 Extraction "parsenum.ml" force_number_types
   strtoumax_m strtoimax_m parsenum_ex6 parsenum_ex4 presult_of
